@@ -430,6 +430,72 @@ example : findDevice (supportsDeviceID 9) (.found exProf [100] false true) = .an
     findDevice (supportsDeviceID 3) (.found exProf [100] false true) = .ok exProf [100] ∧
     findDevice (supportsDeviceID 8) (.found exProf [100] true true) = .anon := by decide
 
+/-! ## Where the switches come from (backend message, cache file) -/
+
+/-- **switches_survive_provenance.** Whether the profile database has the profile from a synchronisation
+with the backend or from the cache file written by an earlier one: the profile's query-log switch,
+IP-log switch, deletion mark and ID are those of the backend's message. -/
+theorem switches_survive_provenance (src : Source) (w : WireProf) :
+    (profFrom src w).prof.qlog = w.qlog ∧ (profFrom src w).prof.iplog = w.iplog ∧
+      (profFrom src w).deleted = w.deleted ∧ (profFrom src w).prof.id = w.id := by
+  cases src <;> simp [profFrom, profOfBackend, cacheOfProf, profOfCache]
+
+/-- **cache_file_roundtrip.** Writing a profile to the cache file and reading it back changes none of
+the fields the request path reads. -/
+theorem cache_file_roundtrip (p : DBProf) : profOfCache (cacheOfProf p) = p := by
+  cases p with
+  | mk pr d => cases pr; rfl
+
+/-- **logged_only_if_backend_opted_in.** The property in terms of what the *backend said*: for every
+request whose device the profile database finds — whatever the source of the database's profile — a
+log entry exists only if the backend's message for that profile enables query logging and does not mark
+it deleted; the entry has a client address only if the message enables IP logging; and it names the
+message's profile and the found device. -/
+theorem logged_only_if_backend_opted_in (q : Req) (src : Source) (w : WireProf) (dev : Str) (authOK : Bool)
+    (hdev : q.dev = findDevice (supportsDeviceID q.proto) (lookupFrom src w dev authOK))
+    (e : Entry) (h : (serve q).log = some e) :
+    w.qlog = true ∧ w.deleted = false ∧ (e.ip ≠ none → w.iplog = true) ∧ e.prof = w.id ∧ e.dev = dev := by
+  obtain ⟨p, d, hd, hq, hip, hprof, hd'⟩ := logged_only_if_opted_in q e h
+  obtain ⟨s1, s2, s3, s4⟩ := switches_survive_provenance src w
+  rw [hdev] at hd
+  simp only [findDevice, lookupFrom] at hd
+  by_cases hs : supportsDeviceID q.proto = true
+  · by_cases hdel : (profFrom src w).deleted = true
+    · simp [hs, hdel] at hd
+    · by_cases ha : authOK = true
+      · simp [hs, hdel, ha] at hd
+        obtain ⟨hp, hdd⟩ := hd
+        subst hp hdd
+        refine ⟨by rw [← s1]; exact hq, ?_, fun hne => by rw [← s2]; exact hip hne, by rw [hprof, s4], hd'⟩
+        rw [← s3]; simpa using hdel
+      · simp [hs, hdel, ha] at hd
+  · simp [hs] at hd
+
+/-- **backend_iplog_off_line_has_no_ip.** End to end from the backend's message to the bytes of the log
+file: if the message disables IP logging, the line of a logged query of that profile has no `ip` member
+for any reader, from either source of the profile. -/
+theorem backend_iplog_off_line_has_no_ip (q : Req) (src : Source) (w : WireProf) (dev : Str) (authOK : Bool)
+    (hdev : q.dev = findDevice (supportsDeviceID q.proto) (lookupFrom src w dev authOK)) (hoff : w.iplog = false)
+    (e : Entry) (rn : Nat) (hl : (serve q).log = some e)
+    (toks : List (Str × Tok)) (h : lexLine (encodeLine e rn) = some toks) :
+    ∀ t, ([105, 112], t) ∉ toks := by
+  obtain ⟨_, _, hip, _⟩ := logged_only_if_backend_opted_in q src w dev authOK hdev e hl
+  intro t ht
+  obtain ⟨a, ha, _⟩ := (line_ip_member_iff e rn toks h t).mp ht
+  have := hip (by simp [ha])
+  simp [hoff] at this
+
+def exWire : WireProf := ⟨[112], true, false, false⟩
+
+/-- Non-vacuity: the message "query log on, IP log off" read back from the cache file yields a logged
+query without address; with IP logging on the address is there; a deleted profile is not logged. -/
+example :
+    let q (w : WireProf) : Req := { exReq with dev := findDevice (supportsDeviceID 8) (lookupFrom .cacheFile w [100] true) }
+    ((serve (q exWire)).log.map (·.ip)) = some none ∧
+      ((serve (q { exWire with iplog := true })).log.map (·.ip)) = some (some [49]) ∧
+      (serve (q { exWire with deleted := true })).log = none ∧
+      (serve (q { exWire with qlog := false, iplog := true })).log = none := by decide
+
 /-- **file_lines_all_read.** Concurrency and integrity together: under every schedule, every record
 in the file (one per appended request, in append order, `file_is_lines`) is accepted by the
 independent reader and reads back as that request's own members. -/
@@ -465,6 +531,10 @@ end Agd.Record
 #print axioms Agd.Record.log_iff
 #print axioms Agd.Record.unidentified_never_logged
 #print axioms Agd.Record.file_lines_all_read
+#print axioms Agd.Record.switches_survive_provenance
+#print axioms Agd.Record.cache_file_roundtrip
+#print axioms Agd.Record.logged_only_if_backend_opted_in
+#print axioms Agd.Record.backend_iplog_off_line_has_no_ip
 #print axioms Agd.Record.first_address_record_decides
 #print axioms Agd.Record.no_address_record_no_ip
 #print axioms Agd.Record.https_first_hint_decides
@@ -493,3 +563,7 @@ end Agd.Record
 #print axioms Agd.Tie.TrC15.entry_ip_only_if_iplog
 #print axioms Agd.Tie.TrC15.entry_describes_request
 #print axioms Agd.Tie.TrC15.record_tr
+#print axioms Agd.Tie.TrC15.fcProfileToInternal_switches
+#print axioms Agd.Tie.TrC15.fcProfileToInternal_tr
+#print axioms Agd.Tie.TrC15.bpProfileToInternal_switches
+#print axioms Agd.Tie.TrC15.bpProfileToInternal_tr
